@@ -29,12 +29,12 @@ class C14(Check):
         iw, sw, mw = spaces.it_world(), spaces.sql_world(), spaces.multi_world()
         if tier == "quick":
             return [
-                SubSpace("multi/full/d3", mw, ("X", "L"), spaces.MULTI_FULL, 3),
+                SubSpace("multi/full/d3", mw, ("X", "L", "IS", "I1"), spaces.MULTI_FULL, 3),
                 SubSpace("it/full/d3", iw, ("L", "E0"), spaces.IT_FULL, 3),
                 SubSpace("sql/wide/d3", sw, ("X", "E"), spaces.SQL_WIDE, 3),
             ]
         return [
-            SubSpace("multi/full/d4", mw, ("X", "L"), spaces.MULTI_FULL, 4),
+            SubSpace("multi/full/d4", mw, ("X", "L", "IS", "I1"), spaces.MULTI_FULL, 4),
             SubSpace("it/full/d4", iw, ("L",), spaces.IT_FULL, 4),
             SubSpace("sql/wide/d3", sw, ("X", "E", "X1"), spaces.SQL_WIDE, 3),
             SubSpace("sql/full/d4", sw, ("X",), spaces.SQL_FULL, 4),
